@@ -643,7 +643,7 @@ impl Database {
         let table_name = table_def.name().to_string();
         let columns = table_def.columns().to_vec();
 
-        let secondary_indexes: Vec<(String, Vec<usize>)> = table_def
+        let secondary_indexes: Vec<(String, Vec<usize>, bool)> = table_def
             .indexes()
             .iter()
             .filter(|idx| idx.index_type() == IndexType::BTree)
@@ -652,7 +652,7 @@ impl Database {
                     .columns()
                     .filter_map(|col_name| columns.iter().position(|c| c.name() == col_name))
                     .collect();
-                (idx.name().to_string(), col_indices)
+                (idx.name().to_string(), col_indices, idx.is_unique())
             })
             .collect();
 
@@ -682,7 +682,11 @@ impl Database {
         let table_storage_arc = file_manager.table_data_mut(&schema_name, &table_name)?;
         let mut table_storage = table_storage_arc.write();
 
-        let mut btree = BTree::new(&mut *table_storage, 1)?;
+        let root_page = {
+            let page0 = table_storage.page(0)?;
+            TableFileHeader::from_bytes(page0)?.root_page()
+        };
+        let mut btree = BTree::new(&mut *table_storage, root_page)?;
 
         if entry.is_insert {
             let row_values: Option<Vec<OwnedValue>> =
@@ -735,7 +739,7 @@ impl Database {
                     }
                 }
 
-                for (index_name, col_indices) in &secondary_indexes {
+                for (index_name, col_indices, is_unique) in &secondary_indexes {
                     if col_indices.is_empty() {
                         continue;
                     }
@@ -744,7 +748,7 @@ impl Database {
                             .iter()
                             .all(|&idx| row_values.get(idx).is_some_and(|v| !v.is_null()));
 
-                        if all_non_null {
+                        if all_non_null || !*is_unique {
                             let index_storage_arc = file_manager.index_data_mut(
                                 &schema_name,
                                 &table_name,
@@ -765,14 +769,43 @@ impl Database {
                                     Self::encode_value_as_key(value, key_buf);
                                 }
                             }
+                            if !*is_unique {
+                                key_buf.extend_from_slice(&entry.key);
+                            }
                             let _ = index_btree.delete(key_buf);
                         }
                     }
                 }
             }
         } else if let Some(old_value) = undo_data {
+            // what the transaction left under this key: a tombstone (DELETE) or the new version (UPDATE)
+            let (was_tombstone, cur_row_values): (bool, Option<Vec<OwnedValue>>) =
+                match btree.get(&entry.key)? {
+                    Some(cur) => {
+                        let tomb = cur.len() >= crate::mvcc::RecordHeader::SIZE
+                            && crate::mvcc::RecordHeader::from_bytes(cur).is_deleted();
+                        let vals = RecordView::new(get_user_data(cur), &schema)
+                            .ok()
+                            .and_then(|r| OwnedValue::extract_row_from_record(&r, &columns).ok());
+                        (tomb, vals)
+                    }
+                    None => (false, None),
+                };
+
             btree.delete(&entry.key)?;
             btree.insert(&entry.key, old_value)?;
+            let new_root = btree.root_page();
+            {
+                let page = table_storage.page_mut(0)?;
+                let header = TableFileHeader::from_bytes_mut(page)?;
+                if new_root != root_page {
+                    header.set_root_page(new_root);
+                }
+                if was_tombstone {
+                    let restored = header.row_count().saturating_add(1);
+                    header.set_row_count(restored);
+                }
+            }
             drop(table_storage);
 
             let old_row_values: Option<Vec<OwnedValue>> = {
@@ -785,83 +818,69 @@ impl Database {
             };
 
             if let Some(row_values) = old_row_values {
-                for (col_idx, index_name, _is_pk) in &unique_columns {
-                    if file_manager.index_exists(&schema_name, &table_name, index_name) {
-                        if let Some(value) = row_values.get(*col_idx) {
-                            if !value.is_null() {
-                                let index_storage_arc = file_manager.index_data_mut(
-                                    &schema_name,
-                                    &table_name,
-                                    index_name,
-                                )?;
-                                let mut index_storage = index_storage_arc.write();
-
-                                let index_root_page = {
-                                    let page0 = index_storage.page(0)?;
-                                    let header = IndexFileHeader::from_bytes(page0)?;
-                                    header.root_page()
-                                };
-
-                                let mut index_btree =
-                                    BTree::new(&mut *index_storage, index_root_page)?;
-                                key_buf.clear();
-                                Self::encode_value_as_key(value, key_buf);
-
-                                let pk_idx = columns
-                                    .iter()
-                                    .position(|c| c.has_constraint(&Constraint::PrimaryKey));
-                                if let Some(pk_idx) = pk_idx {
-                                    if let Some(OwnedValue::Int(pk_val)) = row_values.get(pk_idx) {
-                                        let row_id_bytes = (*pk_val as u64).to_be_bytes();
-                                        let _ = index_btree.insert(key_buf, &row_id_bytes);
-                                    }
-                                }
-                            }
-                        }
+                // (columns of the index, index name, key carries the row key)
+                let mut index_specs: Vec<(Vec<usize>, &str, bool)> = unique_columns
+                    .iter()
+                    .map(|(col_idx, name, _)| (vec![*col_idx], name.as_str(), false))
+                    .collect();
+                for (name, col_indices, is_unique) in &secondary_indexes {
+                    if !col_indices.is_empty() {
+                        index_specs.push((col_indices.clone(), name.as_str(), !*is_unique));
                     }
                 }
 
-                for (index_name, col_indices) in &secondary_indexes {
-                    if col_indices.is_empty() {
+                for (col_indices, index_name, suffix_row_key) in index_specs {
+                    if !file_manager.index_exists(&schema_name, &table_name, index_name) {
                         continue;
                     }
-                    if file_manager.index_exists(&schema_name, &table_name, index_name) {
-                        let all_non_null = col_indices
-                            .iter()
-                            .all(|&idx| row_values.get(idx).is_some_and(|v| !v.is_null()));
+                    let index_storage_arc =
+                        file_manager.index_data_mut(&schema_name, &table_name, index_name)?;
+                    let mut index_storage = index_storage_arc.write();
+                    let index_root_page = {
+                        let page0 = index_storage.page(0)?;
+                        IndexFileHeader::from_bytes(page0)?.root_page()
+                    };
+                    let mut index_btree = BTree::new(&mut *index_storage, index_root_page)?;
 
-                        if all_non_null {
-                            let index_storage_arc = file_manager.index_data_mut(
-                                &schema_name,
-                                &table_name,
-                                index_name,
-                            )?;
-                            let mut index_storage = index_storage_arc.write();
-
-                            let index_root_page = {
-                                let page0 = index_storage.page(0)?;
-                                let header = IndexFileHeader::from_bytes(page0)?;
-                                header.root_page()
-                            };
-
-                            let mut index_btree = BTree::new(&mut *index_storage, index_root_page)?;
-                            key_buf.clear();
-                            for &col_idx in col_indices {
-                                if let Some(value) = row_values.get(col_idx) {
-                                    Self::encode_value_as_key(value, key_buf);
+                    let mut encode = |vals: &[OwnedValue], buf: &mut SmallVec<[u8; 64]>| -> bool {
+                        buf.clear();
+                        let mut all_non_null = true;
+                        for &c in &col_indices {
+                            match vals.get(c) {
+                                Some(v) => {
+                                    all_non_null &= !v.is_null();
+                                    Self::encode_value_as_key(v, buf);
                                 }
-                            }
-
-                            let pk_idx = columns
-                                .iter()
-                                .position(|c| c.has_constraint(&Constraint::PrimaryKey));
-                            if let Some(pk_idx) = pk_idx {
-                                if let Some(OwnedValue::Int(pk_val)) = row_values.get(pk_idx) {
-                                    let row_id_bytes = (*pk_val as u64).to_be_bytes();
-                                    let _ = index_btree.insert(key_buf, &row_id_bytes);
-                                }
+                                None => all_non_null = false,
                             }
                         }
+                        if suffix_row_key {
+                            buf.extend_from_slice(&entry.key);
+                        }
+                        // unique indexes hold no entry for NULL keys, the others index every row
+                        all_non_null || suffix_row_key
+                    };
+
+                    // UPDATE: take out the entry of the new version
+                    if !was_tombstone {
+                        if let Some(new_values) = cur_row_values.as_ref() {
+                            let changed = col_indices
+                                .iter()
+                                .any(|&c| new_values.get(c) != row_values.get(c));
+                            if changed && encode(new_values, key_buf) {
+                                let _ = index_btree.delete(key_buf);
+                            }
+                        }
+                    }
+                    // put back the entry of the old version (value = row key)
+                    if encode(&row_values, key_buf) {
+                        let _ = index_btree.delete(key_buf);
+                        let _ = index_btree.insert(key_buf, &entry.key);
+                    }
+                    let new_index_root = index_btree.root_page();
+                    if new_index_root != index_root_page {
+                        let page0 = index_storage.page_mut(0)?;
+                        IndexFileHeader::from_bytes_mut(page0)?.set_root_page(new_index_root);
                     }
                 }
             }
